@@ -26,6 +26,7 @@ var c07Ops = func() []sop {
 	}
 	o = append(o, sop{Kind: "remove", MB: 1, Ref: "#1"}, sop{Kind: "remove", MB: 2, Ref: "#1"})
 	o = append(o, sop{Kind: "purge", MB: 0}, sop{Kind: "purge", MB: 1})
+	o = append(o, sop{Kind: "add", MB: 0, Body: 0, Back: true})
 	return o
 }()
 
